@@ -150,7 +150,7 @@ def _gen_targets(rng, tier):
 
 # one contract per number of significant bytes of the target (33 classes partition [0, 2**256)): neither the
 # lstrip loop of the code nor the digit-count loop of the spec has to be decided symbolically, and the
-# classes run in parallel.  Classes 4..13 need more than the quick-tier solver budget: thorough only.
+# classes run in parallel.  Classes 3..13 need more than the quick-tier solver budget: thorough only.
 def _gen_targets_class(nb):
     def gen(rng, tier):
         if nb == 0:
@@ -174,7 +174,7 @@ for _nb in range(0, 33):
                       # decoding the produced bits gives the target truncated to its leading bytes, exactly as
                       # SetCompact(GetCompact(t))
                       "spec.spv.compact_to_target(spec.int_le(result)) == spec.spv.compact_to_target(spec.spv.target_to_compact(target))"],
-             tiers=("thorough",) if 4 <= _nb <= 13 else ("quick", "thorough"),
+             tiers=("thorough",) if 3 <= _nb <= 13 else ("quick", "thorough"),
              gen=_gen_targets_class(_nb))
 
 # all classes at once: concrete (bounded companion) only -- the symbolic work is done by the 33 contracts above
@@ -224,7 +224,7 @@ contract("buidl.helper.calculate_new_bits", props=P,
 # (b) the range in which difficulty lives: exponent >= 4 and a normalised mantissa (>= 0x008000, what GetCompact
 #     produces), so every intermediate target is >= 2**21 -- separates the retarget formula and its clamps from
 #     the small-target encoding defect of target_to_bits.  Symbolic, one contract per exponent (about a
-#     minute of solver time each; five of them in the quick tier).
+#     minute of solver time each; three of them (0x1b..0x1d) in the quick tier).
 def _gen_retarget_exp(e):
     def gen(rng, tier):
         spans = [0, 1, _TW // 4 - 1, _TW // 4, _TW // 4 + 1, _TW - 1, _TW, _TW + 1, 4 * _TW - 1, 4 * _TW, 4 * _TW + 1, 2**31 - 1, -1, -_TW]
@@ -247,7 +247,7 @@ for _e in range(4, 0x1e):
                        "spec.spv.compact_to_target(%s) <= spec.spv.POW_LIMIT_MAINNET" % _COMPACT],
              ensures=["returns()",
                       "result == spec.spv.retarget_bytes(previous_bits, time_differential, spec.spv.POW_LIMIT_MAINNET)"],
-             tiers=("quick", "thorough") if _e in (4, 0x17, 0x1b, 0x1c, 0x1d) else ("thorough",),
+             tiers=("quick", "thorough") if _e in (0x1b, 0x1c, 0x1d) else ("thorough",),
              gen=_gen_retarget_exp(_e))
 
 
@@ -308,7 +308,7 @@ contract("buidl.block.Block.check_pow", props=P, params={"self": _block(range(0,
                   "implies(result, spec.spv.header_pow_ok(%s, spec.spv.POW_LIMIT_REGTEST))" % _HDR,
                   # the comparison itself, for well-formed nBits: hash <= target
                   "implies(not spec.spv.compact_negative(spec.int_le(self.bits)) and not spec.spv.compact_overflow(spec.int_le(self.bits)) "
-                  "and self.bits[3] >= 3, "
+                  "and self.bits[3] >= 3 and 0 < spec.spv.compact_to_target(spec.int_le(self.bits)) <= spec.spv.POW_LIMIT_REGTEST, "
                   "result == (spec.int_le(spec.hash256(%s)) <= spec.spv.compact_to_target(spec.int_le(self.bits))))" % _HDR],
          gen=_gen_pow)
 
@@ -365,15 +365,16 @@ for _n in (1, 2, 3):
                       "implies(result, spec.spv.chain_valid(%s, spec.spv.POW_LIMIT_REGTEST))" % _list,     # PoW (sound)
                       "implies(spec.spv.chain_valid(%s, spec.spv.POW_LIMIT_MAINNET), result == True)" % _list,  # complete
                       "implies(not spec.spv.chain_linked(%s), result == False)" % _list],
+             tiers=("thorough",) if _n == 3 else ("quick", "thorough"),
              gen=_gen_chain(_n))
 
 
 # ---------------------------------------------------------------------------- bit fields (BIP37 flag bytes)
-contract("buidl.helper.bytes_to_bit_field", props=P, params={"some_bytes": ("bytes", 0, 3)},
+contract("buidl.helper.bytes_to_bit_field", props=P, params={"some_bytes": ("bytes", 0, 2)},
          ensures=["returns()", "len(result) == 8 * len(some_bytes)", "result == spec.spv.flag_bits(some_bytes)"],
          gen=lambda rng, tier: ({"some_bytes": rand_bytes(rng, k % 9)} for k in range(300)))
 
-contract("verif.harness.spv.bit_field_round_trip", props=P, params={"data": ("bytes", 0, 3)},
+contract("verif.harness.spv.bit_field_round_trip", props=P, params={"data": ("bytes", 0, 1)},
          ensures=["returns()", "result == data"],
          gen=lambda rng, tier: ({"data": rand_bytes(rng, k % 40)} for k in range(300)))
 
@@ -384,7 +385,7 @@ contract("verif.harness.spv.bit_field8", props=P, params={b: ("int", 0, 1) for b
                   "result[0] == " + " + ".join("%s * %d" % (b, 1 << i) for i, b in enumerate(_B8))],
          gen=lambda rng, tier: ({b: rng.randrange(2) for b in _B8} for _ in range(256)))
 contract("verif.harness.spv.bit_field16", props=P, params={b: ("int", 0, 1) for b in _B8 + _C8},
-         ensures=["returns()", "result[0] == result[1]"],
+         ensures=["returns()", "result[0] == result[1]"], tiers=(),          # 2**16 paths: concrete only
          gen=lambda rng, tier: ({b: rng.randrange(2) for b in _B8 + _C8} for _ in range(300)))
 contract("buidl.helper.bit_field_to_bytes#len", props=P, params={"bit_field": ("const", [1, 0, 1])},
          raises={"RuntimeError": "True"}, ensures=[],
